@@ -2,6 +2,7 @@ package main
 
 import (
 	"fmt"
+	"go/token"
 	"go/types"
 	"sort"
 	"strings"
@@ -262,6 +263,7 @@ func runC09(p *Program, r *Report) {
 	checkMemoDiscipline(p, r, "C09.R3")
 	// ---- R4 the lock is never taken twice -------------------------------------------------------------------
 	checkNoReentrantLock(p, r, "C09.R4")
+	checkNoEscaperCopy(p, r, "C09.R6")
 	// ---- R2 foreign objects ---------------------------------------------------------------
 	type fstore struct {
 		fn    *ssa.Function
@@ -570,4 +572,55 @@ func checkNoSharedErrorMutation(p *Program, r *Report, rule string) {
 	if n == 0 {
 		r.OK(rule, "template#no-error-field-writes", "", "no function writes a field of an Error")
 	}
+}
+
+// checkNoEscaperCopy: the escaper of a name space holds the record of the analyses and the edits that are still
+// to be applied; commit() empties the pending edits by assigning fresh maps to its receiver. A copy of the struct
+// shares the maps but not those assignments: committing through a copy leaves the edits pending in the original,
+// and every later first execution re-applies them — writes into parse trees that other goroutines are executing.
+// The struct must therefore never be loaded as a whole from a place that outlives the function (a field of the
+// name space, what a pointer parameter points to); the only whole values are those a constructor returns.
+func checkNoEscaperCopy(p *Program, r *Report, rule string) {
+	tsp := p.SSAPkg("template")
+	n := 0
+	for _, f := range p.SrcFuncs() {
+		if f.Pkg != tsp {
+			continue
+		}
+		for _, b := range f.Blocks {
+			for _, in := range b.Instrs {
+				switch x := in.(type) {
+				case *ssa.FieldAddr:
+					if isNamed(x.Type().(*types.Pointer).Elem(), pkgTemplate, "escaper") {
+						n++
+					}
+				case *ssa.UnOp:
+					if x.Op != token.MUL || !isNamed(x.Type(), pkgTemplate, "escaper") {
+						continue
+					}
+					if _, isPtr := x.Type().Underlying().(*types.Pointer); isPtr {
+						continue
+					}
+					n++
+					if al, ok := x.X.(*ssa.Alloc); ok {
+						// a local built here (by a constructor or a literal) and handed on as a whole
+						if st := singleStoreLoose(al); st == nil || !isNamed(st.Val.Type(), pkgTemplate, "escaper") {
+							continue
+						} else if _, fromCall := st.Val.(*ssa.Call); fromCall {
+							continue
+						} else if u2, ok := st.Val.(*ssa.UnOp); !ok || u2.Op != token.MUL {
+							continue
+						}
+					}
+					short := strings.TrimPrefix(fnName(f), pkgTemplate+".")
+					r.Viol(rule, short+"#escaper-copied", p.Pos(x.Pos()), "the escaper of a name space is copied as a whole: the copy shares the maps of pending edits but commit() through it empties only the copy, so the edits stay pending in the name space and are applied again by every later first execution, while other goroutines execute the trees they rewrite", "")
+				}
+			}
+		}
+	}
+	if n == 0 {
+		r.Undec(rule, "template.escaper#uses", "", "no use of the escaper found")
+		return
+	}
+	r.OK(rule, "template.escaper#never-copied", "", fmt.Sprintf("%d uses of the name space's escaper: always through its address, never a copy of the struct (apart from what constructors return)", n))
 }
